@@ -24,16 +24,102 @@ func travRules() []*Rule {
 	}
 }
 
-// travSeq renders the call events of a path as "callee(args)" strings.
+// travPrimitives are the calls the traversal templates are written in; any other static module callee is a helper
+// and is replaced by its own (single) clean event sequence, so that extracting a helper does not change the verdict.
+var travPrimitives = map[string]bool{
+	"(*db.Database).openIndex": true, "(*db.Database).openTable": true, "db.addOverflow": true, "db.parseRecord": true,
+	"(*db.tableInterior).cellIter": true, "(*db.tableInterior).cellIterMin": true, "db.indexBinSearch": true, "db.Search": true,
+}
+
+var travProg *Program
+
+// travSeq renders the call events of a path as "callee(args)" strings, inlining helper functions one level deep.
 func travSeq(lp *LPath) []string {
 	var out []string
 	for _, e := range lp.Events {
 		if e.Kind != "call" {
 			continue
 		}
+		if exp, ok := inlineHelper(e); ok {
+			out = append(out, exp...)
+			continue
+		}
 		out = append(out, e.Name+"("+strings.Join(e.Args, ", ")+")")
 	}
 	return out
+}
+
+func inlineHelper(e Event) ([]string, bool) {
+	p := travProg
+	if p == nil || travPrimitives[e.Name] {
+		return nil, false
+	}
+	cs, ok := e.Instr.(ssa.CallInstruction)
+	if !ok {
+		return nil, false
+	}
+	callee := cs.Common().StaticCallee()
+	if callee == nil || p.PkgShort(callee) != "db" || callee.Parent() != nil || len(loopHeaders(callee)) > 0 || len(callee.Blocks) == 0 {
+		return nil, false
+	}
+	// methods of the page types are traversal levels, not helpers
+	if callee.Signature.Recv() != nil {
+		return nil, false
+	}
+	t := &Termer{P: p}
+	paths, ok2 := EnumLits(callee.Blocks[0], 0, TabOpts{Termer: t, EventOf: callEvents(p), Limit: 5000})
+	if !ok2 {
+		return nil, false
+	}
+	var seq []string
+	found := false
+	for _, hp := range paths {
+		if hp.Exit == nil || !cleanPath(hp) {
+			continue
+		}
+		var s []string
+		for _, he := range hp.Events {
+			if he.Kind == "call" {
+				s = append(s, he.Name+"("+strings.Join(he.Args, ", ")+")")
+			}
+		}
+		if found && strings.Join(s, ";") != strings.Join(seq, ";") {
+			return nil, false
+		}
+		seq, found = s, true
+	}
+	if !found {
+		return nil, false
+	}
+	// substitute parameters by the call's argument terms
+	for i, prm := range callee.Params {
+		if i >= len(e.Args) {
+			break
+		}
+		for k := range seq {
+			seq[k] = replaceTerm(seq[k], "p:"+prm.Name(), e.Args[i])
+		}
+	}
+	return seq, true
+}
+
+// replaceTerm replaces whole occurrences of the term `from` (not prefixes of longer names).
+func replaceTerm(s, from, to string) string {
+	out := ""
+	for {
+		i := strings.Index(s, from)
+		if i < 0 {
+			return out + s
+		}
+		end := i + len(from)
+		if end < len(s) && (s[end] == '_' || (s[end] >= 'a' && s[end] <= 'z') || (s[end] >= 'A' && s[end] <= 'Z') || (s[end] >= '0' && s[end] <= '9')) {
+			out += s[:end]
+			s = s[end:]
+			continue
+		}
+		out += s[:i] + to
+		s = s[end:]
+	}
 }
 
 var (
@@ -150,6 +236,7 @@ func findFn(p *Program, key string) *ssa.Function {
 
 func runTrav(c *Ctx) {
 	p := c.P
+	travProg = p
 	for _, sp := range travSpecs() {
 		fn := findFn(p, sp.fn)
 		if fn == nil {
